@@ -37,6 +37,12 @@ CHECKS = {
         text='Identities for degrees 0..8 are decided for all inputs as in C03. polyroots/polyroots01 depend on the order in which numpy returns roots, an environment answer the library does not control: every permutation (all n! up to 7/8 roots) of every multiset mixing simple, clustered, complex and out-of-range roots is fed through the real filter and every well-separated simple root must come back exactly once.',
         note='Trusted: numpy.roots accuracy for simple roots (1e-6); the seam replaces numpy.roots only inside this check. Roots exactly on the condition boundary are not demanded.',
         design='4/C19'),
+    'C05': dict(
+        level='exploration',
+        technique='bounded-exhaustive enumeration of all paths (words over a segment pool x joint relations) x a T alphabet made of every boundary value and its float neighbours, against a reference T<->(k,t) model',
+        text='All words of length <= 4 (quick) / 5 (thorough) over a 7-segment pool with length ratios 1e-3:1:1e3 and a zero-length line, every joint exactly coincident / 1 ulp apart / far apart, plus k-equal-lines families; every T of the boundary alphabet is mapped by the real point/T2t/t2T and compared with the reference intervals. Exhaustive over the stated finite space; no all-inputs claim.',
+        note='Trusted: segment length() (decided by C06) for the reference fractions. Tolerances are computed from the representation (eps/fraction), not guessed.',
+        design='4/C05'),
 }
 
 NOT_YET = {}
